@@ -8,6 +8,7 @@ written is read back, what was created is found, read-only procedures and restar
 nothing, refused procedures have no effect.
 -/
 import GoNfsd.Lemmas.Lookup
+import GoNfsd.Lemmas.BlockMap
 
 namespace GoNfsd.Props.C02
 open GoNfsd.Model.Fs GoNfsd.Gen.Consts
@@ -155,5 +156,17 @@ example :
       | .data n _ bytes => (n, bytes)
       | _ => (0, [])) = (8, [0, 0, 0, 0, 0, 7, 8, 9]) := by
   decide
+
+/-! ### block level (model M7, tied to the code by the `blockmap` correspondence) -/
+
+/-- The block a WRITE obtains from `bmap` for file block `bn` (direct and single-indirect range)
+    is the block the block map maps `bn` to afterwards: what is written there is what a READ of
+    `bn` finds. -/
+theorem written_block_is_mapped (s : GoNfsd.Model.BlockMap.S) (blks : List Nat) (bn : Nat)
+    (hl : blks.length = NDIRECT + 2) (hbn : bn < NDIRECT + NBLKBLK)
+    (hok : (GoNfsd.Model.BlockMap.bmap s blks bn).2.2.1 ≠ 0) :
+    GoNfsd.Model.BlockMap.lookup (GoNfsd.Model.BlockMap.bmap s blks bn).1.st (GoNfsd.Model.BlockMap.bmap s blks bn).2.1 bn =
+      (GoNfsd.Model.BlockMap.bmap s blks bn).2.2.1 :=
+  GoNfsd.Model.BlockMap.bmap_maps s blks bn hl hbn hok
 
 end GoNfsd.Props.C02
